@@ -220,6 +220,7 @@ type Specs struct {
 	Files       []string
 	TrustedPure []*regexp.Regexp // callee keys treated as effect-free with unconstrained results
 	TrustedPureSrc []string
+	TerminationProps []string // "termination property Cxx": obligations of kind termination are (also) claimed for these
 }
 
 func newSpecs() *Specs {
@@ -514,6 +515,14 @@ func (s *Specs) loadSpecFile(w *World, path string, pkg *packages.Package, trust
 				cur.Iterations = map[int][]*Clause{}
 			}
 			cur.Iterations[k] = append(cur.Iterations[k], c)
+		case "termination":
+			// termination property C02 [...]: which properties the termination obligations of every function belong to
+			f := strings.Fields(rest)
+			if len(f) < 2 || f[0] != "property" {
+				return fail(l, "termination property <id> ...")
+			}
+			s.TerminationProps = append(s.TerminationProps, f[1:]...)
+			cur = nil
 		case "terminates":
 			if cur == nil {
 				return fail(l, "terminates outside contract")
